@@ -18,6 +18,20 @@ class SiteAlignment(AlignResourceConstraint):
     pass
 
 
+def mk_constraints(spec, subclass):
+    cs = []
+    for k in spec:
+        sub = subclass and (len(cs) % 2 == 0)
+        if k[0] == "reserve":
+            cs.append((SiteReservation if sub else ReserveResourceConstraint)(
+                k[1], slice(k[2], k[3]), None if k[4] is None else tuple(k[4])))
+        elif k[0] == "align":
+            cs.append((SiteAlignment if sub else AlignResourceConstraint)(k[1], k[2]))
+        else:
+            cs.append(LocationConstraint(0, (0, 0)))
+    return cs
+
+
 def run_case(c):
     m = c["machine"]
     machine = Machine(m["w"], m["h"], chip_resources=OrderedDict((r, q) for r, q in m["res"]),
@@ -36,8 +50,35 @@ def run_case(c):
         else:
             cs.append(LocationConstraint(0, (0, 0)))
     pl = OrderedDict((v, tuple(xy)) for v, xy in c["placements"])
+    e = c.get("entry")
     try:
-        a = allocate(vres, [], machine, cs, pl)
+        if e and e["how"] == "setitem":
+            machine = Machine(m["w"], m["h"], chip_resources=OrderedDict((r, q) for r, q in m["res"]),
+                              dead_chips=set(tuple(xy) for xy in m["dead"]))
+            for xy, rs in e["history"]:
+                machine[tuple(xy)] = OrderedDict((r, q) for r, q in rs)
+            a = allocate(vres, [], machine, cs, pl)
+        elif e and e["how"] == "wrapper":
+            import warnings
+            from rig.place_and_route.wrapper import wrapper
+            warnings.simplefilter("ignore")
+            a = wrapper(vres, {v: "app" for v in vres}, [], {}, machine, mk_constraints(e["user"], c.get("subclass")),
+                        reserve_monitor=e["reserve_monitor"], align_sdram=e["align_sdram"],
+                        place=lambda *a, **k: pl, route=lambda *a, **k: {},
+                        core_resource=e["core_resource"], sdram_resource=e["sdram_resource"])[1]
+        elif e and e["how"] == "pnr_wrapper":
+            from rig.place_and_route.wrapper import place_and_route_wrapper
+            from rig.machine_control.machine_controller import SystemInfo, ChipInfo
+            from rig.machine_control.consts import AppState
+            si = SystemInfo(m["w"], m["h"], OrderedDict(
+                (tuple(xy), ChipInfo(num_cores=n, core_states=[AppState[st] for st in states], working_links=set(),
+                                     largest_free_sdram_block=sd, largest_free_sram_block=sr))
+                for xy, n, states, sd, sr in e["info"]))
+            a = place_and_route_wrapper(vres, {v: "app" for v in vres}, [], {}, si, mk_constraints(e["user"], False),
+                                        place=lambda *a, **k: pl, route=lambda *a, **k: {},
+                                        core_resource=e["core_resource"], sdram_resource=1, sram_resource=2)[1]
+        else:
+            a = allocate(vres, [], machine, cs, pl)
     except InsufficientResourceError:
         return ["fail", 0]
     except Exception as e:
